@@ -581,7 +581,9 @@ def revsuffix_jobs(tier):
             ("RSR", dict(base, Family="RSR", Budget=1400, LCap=6), "MC_ReverseSuffix", "revsuffix"),
             # the reverse-inner driver (spec/ReverseInner.tla): P.I.Q with wildcard / class / alternation prefixes, self-overlapping
             # inner literals, universal and non-universal suffixes
-            ("RIG", dict(ri, Family="RIG", Budget=1400, LCap=5), "MC_ReverseInner", "revsuffix")]
+            ("RIG", dict(ri, Family="RIG", Budget=1400, LCap=5), "MC_ReverseInner", "revsuffix"),
+            # the reverse-suffix-set driver (spec/ReverseSuffixSet.tla): A.(L1|L2), literals that overlap / contain each other
+            ("SSG", dict(ri, Family="SSG", Budget=1400, LCap=6), "MC_ReverseSuffixSet", "revsuffix")]
 
 
 def revsuffix_stages(tier):
@@ -596,6 +598,7 @@ def revsuffix_stages(tier):
             tlc_model_stage("ReverseSuffix_rescaneq_control", "MC_ReverseSuffix", dict(base, Family="RSR", Budget=1400, LCap=6, Variant="rescaneq"), cfg,
                             workers=4, expect_violation=True),
             # `.*I.*`: the universal shortcut of the reverse-inner driver is exact
+            tlc_model_stage("ReverseSuffixSet_exact_on_SSG", "MC_ReverseSuffixSet", dict(base, Family="SSG", Budget=300, Variant="code"), cfg, workers=4),
             tlc_model_stage("ReverseInner_exact_on_RIU", "MC_ReverseInner", dict(base, Family="RIU", Budget=400, Variant="code"), cfg, workers=2)]
 
 
